@@ -222,6 +222,66 @@ def rule_taint(chk, prog):
   chk.at_least(rule, 70)
 
 
+def _enclosing(m, lineno, name):
+  """FuncInfo of the innermost function of module m that contains the definition `name` at `lineno` (None at module level)."""
+  import ast
+  best = None
+  for f in [f for f in m.functions.values()] + [f for c in m.classes.values() for f in c.methods.values()]:
+    for nd in ast.walk(f.node):
+      if nd is not f.node and isinstance(nd, (ast.FunctionDef, ast.Assign)) and getattr(nd, 'lineno', -1) == lineno:
+        best = f
+  return best
+
+
+def verify_custom_rule(chk, prog, m, site, rule):
+  """A hand-written derivative rule replaces what autodiff would derive, so its *formula* has to be established too.
+  Verifiable forms: a JVP that hands (primals, tangents) on to jax.jvp of the implementation; a VJP of a linear map, decided by the
+  transpose calculus of sa/adjoint.py.  Anything else cannot be decided statically and is reported as such (no verdict)."""
+  from sa import adjoint
+  short = m.name.replace('dinosaur.', '')
+  where = (m.relpath, site.lineno)
+  if site.kind == 'custom_jvp':
+    if site.wholesale:
+      chk.ok(rule, f'{short}.{site.name}: the JVP rule differentiates the implementation itself (tangents handed on as a whole)', site.rule, where)
+      return
+    raise AnalysisError(f'{short}.{site.name}: hand-written JVP formula ({site.rule}) cannot be verified statically — no verdict on C08 for a tree that carries it')
+  parent = _enclosing(m, site.lineno, site.name)
+  ev = sym.Evaluator(prog, sym.Options(opaque=common.SIGMA_PROPS | {'jax_numpy_utils.cumsum', 'jax_numpy_utils.reverse_cumsum'}, max_depth=4))
+  fis = {}
+  if parent is not None:
+    try:
+      ev.run(parent)
+    except Exception as e:   # noqa: BLE001
+      raise AnalysisError(f'{short}.{site.name}: enclosing function could not be evaluated ({e})')
+    for key in list(ev.lambdas):
+      fi, cenv = ev.lambdas[key]
+      if fi.parent is parent and fi.name in (site.name, site.rule):
+        fis[fi.name] = (fi, cenv)
+  else:
+    for nme in (site.name, site.rule):
+      f_ = m.functions.get(nme)
+      if f_ is not None:
+        fis[nme] = (f_, None)
+  if site.name not in fis or site.rule not in fis:
+    raise AnalysisError(f'{short}.{site.name}: hand-written VJP ({site.rule}) — primal / backward function not resolvable for the transpose check; no verdict')
+  (pf, penv), (bf, benv) = fis[site.name], fis[site.rule]
+  pv, _, _ = ev.run(pf, closure=penv) if penv is not None else ev.run(pf)
+  bv, _, _ = ev.run(bf, closure=benv) if benv is not None else ev.run(bf)
+  diff_idx = [i for i in range(len(site.params)) if i not in site.nondiff]
+  ct = Term('sym', bf.param_names()[-1])
+  outs = list(bv.a) if bv.k == 'tuple' else [bv]
+  A = alg.Algebra(ev)
+  for k, i in enumerate(diff_idx):
+    x = Term('sym', site.params[i])
+    wp = adjoint.words(pv, x, A)
+    wb = adjoint.words(outs[k], ct, A) if k < len(outs) else None
+    if wp is None or wb is None:
+      raise AnalysisError(f'{short}.{site.name}: hand-written VJP ({site.rule}) of a map that is not recognisably linear in `{site.params[i]}` cannot be verified statically; no verdict')
+    want = adjoint.transpose(wp)
+    chk.check(adjoint.same(wb, want), rule, f'{short}.{site.name}: the backward rule {site.rule} is the transpose of the primal in `{site.params[i]}` (operator words: scale, cumsum ↔ reverse_cumsum)',
+              adjoint.show(wb), where, adjoint.show(want), adjoint.show(wb))
+
+
 def rule_custom_rules(chk, prog):
   """Hand-written derivative rules are outside the taint argument: each must pass on the tangent of every differentiable argument."""
   import ast
@@ -239,6 +299,7 @@ def rule_custom_rules(chk, prog):
         chk.violation(rule, f'{short}.{s_.name}: {s_.kind} rule {s_.rule or "?"}, argument {arg}', text, (m.relpath, s_.lineno), 'the returned tangent depends on the tangent of every differentiable argument', text)
       if not s_.problems:
         chk.ok(rule, f'{short}.{s_.name}: {s_.kind} rule {s_.rule} uses the tangent / returns a cotangent of every differentiable argument', str(s_.params), (m.relpath, s_.lineno))
+        verify_custom_rule(chk, prog, m, s_, rule)
     n += 1
   chk.ok(rule, f'{n} modules scanned for jax.custom_jvp / jax.custom_vjp definitions (decorator, partial and call forms) and their defjvp / defjvps / defvjp registrations', '')
   fx = os.path.join(os.path.dirname(os.path.dirname(os.path.abspath(__file__))), 'fixtures', 'custom_deriv_fixture', 'dinosaur', 'fixture.py')
